@@ -290,7 +290,12 @@ def make_shape(letter, pts):
     elif cls == "TriMesh":
         obj = ms.TriMesh(pts, np.array(tl, dtype=int).reshape(-1, 3))
     elif cls == "LabelledPointUndirectedGraph":
-        obj = ms.LabelledPointUndirectedGraph.init_from_indices_mapping(pts, earr, OrderedDict((k, list(v)) for k, v in labels))
+        adj = earr
+        if earr.shape == (2, 2):  # a 2x2 array would be read as an adjacency matrix: hand over a real one
+            adj = np.zeros((n, n), dtype=int)
+            for i, j in edge_list:
+                adj[i, j] = adj[j, i] = 1
+        obj = ms.LabelledPointUndirectedGraph.init_from_indices_mapping(pts, adj, OrderedDict((k, list(v)) for k, v in labels))
     else:
         raise ValueError(cls)
     ref = {"points": np.array(pts, dtype=float), "edges": set(frozenset(e) for e in edge_list), "labels": labels}
@@ -1076,8 +1081,8 @@ class C16(Check):
             if kind == "imf" and root[2] == "RGBA" and not root[3]:
                 return []  # four channels: not exportable, only the import clause applies
             outs = LOSSLESS_OUT[:6] if self.tier == "quick" else LOSSLESS_OUT
-            if st["cur"].pixels.shape[-1] == 1:
-                outs = [o for o in outs if o != "pcx"]  # Pillow's own pcx reader rejects its one-column RGB files
+            if st["cur"].pixels.shape[-1] < 4:
+                outs = [o for o in outs if o != "pcx"]  # Pillow alone does not round-trip RGB pcx rows shorter than 4 pixels
             ops = self._rt_ops(["." + o for o in outs], level)
             # the protocol slot carries the normalisation flag of the re-import
             res = []
